@@ -13,7 +13,7 @@ import copy
 import random
 
 from .. import scen, tlc, tour
-from ..framework import main, load_findings
+from ..framework import main, load_findings, as_built
 
 SHAPES = {
     'shell0': (['shell'], [[]]), 'shell2': (['shell'], [[1, 2]]), 'stat': (['flush', 'readw', 'clse'], [[1]]), 'list2': (tour.LIST2, [[1, 2]]),
@@ -30,14 +30,15 @@ def body(ctx):
     # 1 + 2: every shape alone (intended and as-built), with the tour
     for name, (p, rp) in SHAPES.items():
         prog, rep = {'t1': p}, {'t1': rp}
-        for (a, b) in sorted({(False, False), (k1, f5)}):
-            r = tour.host_run(prog, rep, a, b, invariants=('MonitorOK', 'LockDiscipline'), deadlock=False)
-            ctx.add_tlc(r, 'AdbHost %s DEV_K1=%s DEV_F5=%s' % (name, a, b))
+        for (a, b, c) in sorted({(False, False, False), as_built()}):
+            r = tour.host_run(prog, rep, a, b, invariants=('MonitorOK', 'LockDiscipline'), deadlock=False, registry=c)
+            ctx.add_tlc(r, 'AdbHost %s DEV_K1=%s DEV_F5=%s REGISTRY=%s' % (name, a, b, c))
             if r.violations:
                 ctx.violation('C04.' + r.violations[0]['name'] + '(design)', dict(kind='design-counterexample', shape=name, dev_k1=a, dev_f5=b,
                                                                                   last_state=r.violations[0]['trace'][-1][:1500]))
                 return
-        r = tour.host_run(prog, rep, k1, f5, invariants=(), emit=True, deadlock=False, cached=True)
+        K1b, F5b, REG = as_built()
+        r = tour.host_run(prog, rep, K1b, F5b, invariants=(), emit=True, deadlock=False, cached=True, registry=REG)
         g = tour.Graph(tlc.printed(r, 'EDGE'))
         paths = g.tour()
         for mode in ('sync', 'async'):
